@@ -340,9 +340,10 @@ fn match_and_add_label<'tree, D: Doc, M: Matcher<D::Lang>>(
   node: Node<'tree, D>,
   env: &mut Cow<MetaVarEnv<'tree, D>>,
 ) -> Option<Node<'tree, D>> {
-  let matched = inner.match_node_with_env(node, env)?;
-  env.to_mut().add_label("secondary", matched.clone());
-  Some(matched)
+  // the relational rule matches `node` itself; what its sub-rule found is only recorded as a label
+  let matched = inner.match_node_with_env(node.clone(), env)?;
+  env.to_mut().add_label("secondary", matched);
+  Some(node)
 }
 
 #[derive(Debug, Error)]
